@@ -191,8 +191,7 @@ Proof.
   - apply local_same_streams with (e := put_stream j (new_stream (POpening true) 0) (ep st s)); try reflexivity.
     apply local_put; auto.
     + constructor; cbn; intros; try discriminate; try congruence; auto.
-      * destruct H as [H|[H|(b & H)]]; try discriminate. auto.
-      * injection H as <-. auto.
+      injection H as <-. auto.
     + intros Hin. destruct (l_backlog _ _ C _ Hin) as (x0 & G0 & _).
       unfold vw in V1. rewrite G0 in V1. discriminate.
 Qed.
